@@ -23,13 +23,15 @@ def run(chk):
     # relying-party ids that differ from the credential's only in letter case / by a sub-domain label (shipped stores)
     cerlib.run_config(chk, "C05nearmem", PREFIXES)
     cerlib.run_config(chk, "C05nearslot", PREFIXES)
+    # an exclude-list hit combined with an unsupported algorithm list / pinAuth / an rk the store cannot provide
+    cerlib.run_config(chk, "C05prec", PREFIXES)
     storecontract.run(chk)
     # the exclude / allow-list lookups while another ceremony holds or wants the shared store's lock
     # (spec/Concurrent.tla, every interleaving of the pairs C05_ConcPairs, Mutex and RwLock wrappers)
     from checks import c19
     for lock in ("mutex", "rwlock"):
         c19.pairs(chk, "ConcMC_c05_%s.cfg" % lock, "c05-pairs-" + lock, ("C05.",))
-    cerlib.random_histories(chk, PREFIXES, quick_n=0)
+    cerlib.random_histories(chk, PREFIXES, quick_n=60)
     cerlib.finish_cov(chk, "one behaviour per (store content over 2 RPs x 3 credentials, request RP, allow/exclude list, list given or not, store kind); "
                            "non-trivial = reaches a prompt or store call",
                       False, "bounded store contents and lists, exhaustive within the bound")
